@@ -167,8 +167,10 @@ def close(x, ref, rel=1e-12):
     return abs(x - ref) <= rel * max(abs(ref), 1e-300) or x == ref
 
 def norms_oracle(case, items):
-    import mpmath
+    import mpmath, math
     m0 = case.meta["m0"]
+    if any(not math.isfinite(v) for v in m0[2]):
+        return None      # NaN / infinite entries are outside the property's quantifier: model-vs-implementation tie only
     if any(it[0] == 'P' for it in items):
         return "a norm panicked on a well-formed matrix: %r" % (items,)
     got = [bits_f64(it[1]) for it in items if it[0] == 'f']
@@ -311,6 +313,10 @@ def generate(rng, tier):
                 cases.append(mk_norms((r, c, [float(1 + i + 10 * j) * (-1) ** (i + j) for i in range(r) for j in range(c)]), "norms-pattern"))
     # (p) every ordered pair of editing operations on 1x1, 2x2, 3x2, 2x3 (+ sampled triples in the thorough tier)
     cases += gen_op_pairs(rng, tier)
+    # non-finite entries: tie only (f64::max ignores a NaN operand: the model says the same)
+    nan, inf = float("nan"), float("inf")
+    for m0 in [(1, 2, [nan, 2.0]), (2, 2, [1.0, -inf, 3.0, 4.0]), (2, 3, [1.0, nan, -2.0, inf, 0.5, -0.0]), (2, 1, [nan, nan])]:
+        cases.append(mk_norms(m0, "norms-nonfinite"))
     # (s) f64 * matrix on a few shapes; identity matrices of every size 0..B+1
     g = rng.fork("misc")
     for (r, c) in [(0, 0), (0, 2), (1, 1), (2, 3), (3, 2), (4, 4)]:
